@@ -20,6 +20,7 @@ INV = {
     'C15': ['Inv_C15_SameAsLocal', 'Inv_C15_PhaseObjectFaithful', 'Inv_C15_PhaseObjectLifetime', 'Inv_C15_PausePropagation'],
     'C12': ['Inv_C12_InformerIffOwned', 'Inv_C12_HandlersAttached', 'Inv_C12_ReadUnwatchedFails', 'Inv_C12_MatchesReferenceModel'],
     'C20': ['Inv_C20_OnePullPerImage', 'Inv_C20_ExactlyOneResponse', 'Inv_C20_NoPhantomPull', 'Inv_C20_Private', 'Inv_C20_NoLostWakeup'],
+    'C17': ['Inv_C17_Verdict', 'Inv_C17_AllFailuresReported', 'Inv_C17_CELMustBeBoolean', 'Inv_C17_ObjectUnchanged', 'Inv_C17_NoPanic'],
     'C19': ['Inv_C19_NoPanic'],
 }
 
@@ -96,7 +97,8 @@ def g_dep_archive(e):
     return e['actor'] in ('od', 'cod') and ((e['ev'] == 'Update' and e['args']['body']['cr']['lifecycle'] == 'Archived') or e['ev'] == 'Delete')
 
 
-GUARDS = {'C20': lambda e: e['ev'] in ('C20Release', 'C20Stress') and (e['ev'] == 'C20Stress' or len(e['args']['returned']) > 0),
+GUARDS = {'C17': lambda e: e['ev'] == 'C17Row',
+          'C20': lambda e: e['ev'] in ('C20Release', 'C20Stress') and (e['ev'] == 'C20Stress' or len(e['args']['returned']) > 0),
           'C12': lambda e: e['ev'] in ('C12Op', 'C12Quiescent'),
           'C15': lambda e: e['ev'] in ('Create', 'Delete', 'MergePatch') and e['key'].startswith('ObjectSetPhase/') and e['actor'] == 'os' or (e['ev'] == 'Quiesced' and e['args'].get('diff') == 'c15'),
           'C14': lambda e: (e['ev'] == 'Quiesced' and e['args'].get('diff') == 'c14') or (e['ev'] == 'Get' and e['key'].startswith('ObjectSlice/')),
@@ -104,6 +106,7 @@ GUARDS = {'C20': lambda e: e['ev'] in ('C20Release', 'C20Stress') and (e['ev'] =
           'C09': g_paused, 'C11': g_preflight}
 
 RULES = {
+    'C17': 'one case = one (probe list, object) row: every single-entry probe list x every abstract object exhaustively, lists of 2-3 entries sampled by seed',
     'C20': 'one case = one script of request arrivals / pull completions (3 callers x 2 images, success or failure) executed on the real RequestManager, or one free-running stress run; non-trivial if a pull completed with waiting callers; distinct by event sequence',
     'C12': 'one case = one operation sequence (Watch/Free/Get/List/OwnersForGKV with scripted informer start-up failures) executed on the real dynamiccache.Cache, or one concurrent stress run; distinct by the sequence of operations and results',
     'C15': 'non-trivial: the ObjectSet controller created/patched/deleted an ObjectSetPhase object, or a delegated variant of the staged scenario was compared stage by stage with the in-process run; distinct by event sequence',
@@ -122,7 +125,38 @@ RULES = {
 }
 
 
+# table-like drivers: one event = one case; distinct cases are counted by the abstract row itself
+ROWKEY = {
+    'C17': ('C17Row', lambda e: json.dumps([e['args']['probes'], e['args']['obj']], sort_keys=True)),
+}
+
+
+def coverage_rows(pid, results):
+    evname, keyf = ROWKEY[pid]
+    seen, samples, n = set(), [], 0
+    for r in results:
+        try:
+            f = open(r['trace'])
+        except OSError:
+            continue
+        for line in f:
+            if evname not in line:
+                continue
+            e = json.loads(line)
+            if e['ev'] != evname:
+                continue
+            n += 1
+            k = keyf(e)
+            if k not in seen:
+                seen.add(k)
+                if len(samples) < 5:
+                    samples.append(e['args'])
+    return dict(distinct_nontrivial=len(seen), rule=RULES.get(pid, '') + ' [distinct abstract rows, measured]', samples=samples or [dict(note='none')], evaluations=n)
+
+
 def coverage(pid, results):
+    if pid in ROWKEY:
+        return coverage_rows(pid, results)
     guard = GUARDS.get(pid, lambda e: True)
     sigs, samples = set(), []
     for r in results:
@@ -282,6 +316,11 @@ CHECKS = {
                          driver=['c12-seq', '-mode', 'random', '-n', '400' if tier == 'quick' else '20000', '-steps', '14', '-seed', str(seed)]),
                     dict(name='c12-stress', module='TraceDynCache', shards=4 if tier == 'quick' else 14,
                          driver=['c12-stress', '-n', '40' if tier == 'quick' else '2000', '-steps', '60', '-seed', str(seed)])]),
+    'C17': dict(level='model_checking', invariants=INV['C17'], module='TraceProbing',
+                assumptions=['abstract row domain: selectors {none,match,mismatch}^2, sub-probes condition/fieldsEqual/CEL, object status shapes incl. malformed conditions; observedGeneration values are integers'],
+                level_text='Every row of the abstract probe-list x object table (single-entry lists exhaustively, longer lists sampled/seeded) is concretised, run through the real internal/probing.Parse and pkg/probing probers, and TLC compares verdict, number of reported failures, parse errors and object immutability with the TLA+ function Probing!Pass.',
+                jobs=lambda tier, seed: [dict(name='probe-table', module='TraceProbing', shards=8 if tier == 'quick' else 14,
+                                              driver=['probe-table', '-n', '4000' if tier == 'quick' else '300000', '-seed', str(seed)])]),
     'C20': dict(level='model_checking', invariants=INV['C20'], module='TraceReqMgr',
                 assumptions=['the registry pull is a gated test function installed through a build-tag guarded accessor; RequestManager, its lock, channels and deep copies are the real code',
                              'interleavings inside the mutex-protected sections are reached only by chance (stress driver)'],
